@@ -118,7 +118,7 @@ def classifySM (env : SMEnv) (target : Target) (hadMeta : Bool) (m : Msg) (exp g
        | none => if exp.any (·.startsWith "W:") then "C13:well-formed-dwr-not-answered" else "C13:dwr-events-differ"
        | some (ah, aas) =>
          if exp.isEmpty then "C13:dwr-answered-unexpectedly"
-         else if ¬ mirrors m.hdr ah then "C16:dwa-does-not-mirror-request-header"
+         else if ¬ mirrors m.hdr ah then "C16:dwa-does-not-mirror-request-header,C13:dwa-does-not-carry-the-request-identifiers"
          else if rcOfMsg aas ≠ some 2001 then "C13:dwa-result-code"
          else "C13:dwa-content-differs")
     | .app _ => "C10:application-events-differ"
